@@ -48,7 +48,7 @@ Definition check_bcase (c : bcase) : Z :=
   end.
 
 Record qcase := {
-  qc_manager : bool;         (* false: one queue over heap bytes; true: a queue manager pair *)
+  qc_kind : Z;               (* 0: one queue over heap bytes; 1: queue manager pair on a file; 2: on a memfd *)
   qc_cap : Z; qc_dataLen : Z; qc_fill : Z;
   qc_create : Z; qc_a : list queue;     (* creator: [q] or [send; recv] *)
   qc_map : Z; qc_b : list queue;        (* mapper:  [q] or [send; recv] *)
@@ -56,20 +56,24 @@ Record qcase := {
 
 (* 0 = agree; 11 = create outcome; 12 = creator geometry; 13 = mapping size; 14 = mapper outcome;
    15 = mapper geometry *)
+Definition check_qm (create : Z -> mem -> outcome (qmanager * Z * mem)) (map : Z -> mem -> outcome qmanager)
+  (c : qcase) : Z :=
+  match create (qc_cap c) (fun _ => qc_fill c) with
+  | Ok (a, memSize, m') =>
+    if negb (qc_create c =? 0) then 11
+    else if negb (list_eqb queue_eqb [qm_send a; qm_recv a] (qc_a c)) then 12
+    else if negb (memSize =? qc_memSize c) then 13
+    else match map memSize m' with
+         | Ok b => if negb (qc_map c =? 0) then 14
+                   else if negb (list_eqb queue_eqb [qm_send b; qm_recv b] (qc_b c)) then 15 else 0
+         | o => if qc_map c =? kind_of o then 0 else 14
+         end
+  | o => if qc_create c =? kind_of o then 0 else 11
+  end.
+
 Definition check_qcase (c : qcase) : Z :=
-  if qc_manager c then
-    match create_qm (qc_cap c) (fun _ => qc_fill c) with
-    | Ok (a, memSize, m') =>
-      if negb (qc_create c =? 0) then 11
-      else if negb (list_eqb queue_eqb [qm_send a; qm_recv a] (qc_a c)) then 12
-      else if negb (memSize =? qc_memSize c) then 13
-      else match map_qm memSize m' with
-           | Ok b => if negb (qc_map c =? 0) then 14
-                     else if negb (list_eqb queue_eqb [qm_send b; qm_recv b] (qc_b c)) then 15 else 0
-           | o => if qc_map c =? kind_of o then 0 else 14
-           end
-    | o => if qc_create c =? kind_of o then 0 else 11
-    end
+  if qc_kind c =? 1 then check_qm create_qm map_qm c
+  else if qc_kind c =? 2 then check_qm create_qm_memfd map_qm_memfd c
   else
     match create_q 0 (qc_dataLen c) (qc_dataLen c) (qc_cap c) (fun _ => qc_fill c) with
     | Ok (a, m') =>
